@@ -55,6 +55,12 @@ type GW1 struct {
 	B uint8
 	C *uint64
 }
+type GL4 []*uint64
+type GW2 struct {
+	A *uint8
+	B *int8
+	C GL4
+}
 type GS8 struct {
 	A int64
 	B GL1            // optional, bound to a slice: nil means absent
@@ -123,6 +129,7 @@ var BindLib = map[string]func() interface{}{
 	"R7": func() interface{} { return new(GR7) }, "R2": func() interface{} { return new(GR2) },
 	"W1": func() interface{} { return new(GW1) }, "S8": func() interface{} { return new(GS8) },
 	"M3": func() interface{} { return new(GM3) }, "U5": func() interface{} { return new(GU5) },
+	"L4": func() interface{} { return new(GL4) }, "W2": func() interface{} { return new(GW2) },
 }
 
 func goFieldName(s string) string { return strings.ToUpper(s[:1]) + s[1:] }
